@@ -18,9 +18,11 @@ Section StoreFacts.
   Notation save := (save elem show).
   Notation canonical := (canonical elem same).
 
-  (* environment: printing then parsing an element gives it back; a stored scalar
-     is in canonical printed form (its own normal form) *)
-  Hypothesis parse_show : forall j e, parse j (show j e) = Some e.
+  (* environment: printing then parsing an element gives it back -- for the elements
+     that can be in a store at all ([good]: what the option's Set can produce); a stored
+     scalar is in canonical printed form (its own normal form) *)
+  Variable good : nat -> elem -> Prop.
+  Hypothesis parse_show : forall j e, good j e -> parse j (show j e) = Some e.
 
   (* ---------- list options ---------- *)
   Lemma set_elem_append j pre e :
@@ -84,20 +86,21 @@ Section StoreFacts.
 
   (* ---------- loading the saved lists ---------- *)
   Lemma load_one_list j l : forall S0 pre cur post,
-    lists S0 = pre ++ cur :: post -> length pre = j -> fresh_over j cur l ->
+    lists S0 = pre ++ cur :: post -> length pre = j -> fresh_over j cur l -> Forall (good j) l ->
     apply_items S0 (map (fun e => Elem j (show j e)) l) =
       Some (mkStore (scalars S0) (pre ++ (cur ++ l) :: post)).
   Proof.
-    induction l as [|e l IH]; intros S0 pre cur post HL Hj Hf; cbn [map Config.apply_items].
+    induction l as [|e l IH]; intros S0 pre cur post HL Hj Hf Hg; cbn [map Config.apply_items].
     - rewrite app_nil_r. destruct S0; cbn in *; subst; reflexivity.
-    - cbn [Config.apply_item]. rewrite parse_show. destruct Hf as [He Hr]. subst j.
+    - apply Forall_cons_iff in Hg. destruct Hg as [Hge Hgl].
+      cbn [Config.apply_item]. rewrite parse_show by exact Hge. destruct Hf as [He Hr]. subst j.
       rewrite HL. rewrite upd_at_app. rewrite set_elem_append by exact He.
-      rewrite (IH _ pre (cur ++ [e]) post); [| reflexivity | reflexivity | exact Hr].
+      rewrite (IH _ pre (cur ++ [e]) post); [| reflexivity | reflexivity | exact Hr | exact Hgl].
       cbn [scalars]. rewrite <- app_assoc. reflexivity.
   Qed.
 
   Lemma load_lists ls : forall pre sc,
-    Forall2 (fun j l => canonical j l) (seq (length pre) (length ls)) ls ->
+    Forall2 (fun j l => canonical j l /\ Forall (good j) l) (seq (length pre) (length ls)) ls ->
     apply_items (mkStore sc (pre ++ map (fun _ => []) ls)) (save_lists elem show (length pre) ls)
       = Some (mkStore sc (pre ++ ls)).
   Proof.
@@ -108,7 +111,8 @@ Section StoreFacts.
       { induction a as [|x a IHa]; intros b s0; cbn [app Config.apply_items]; [reflexivity|].
         destruct (apply_item s0 x); [apply IHa | reflexivity]. }
       rewrite Happ.
-      rewrite (load_one_list (length pre) l _ pre [] (map (fun _ => []) ls)); [| reflexivity | reflexivity |].
+      destruct Hl as [Hl Hg].
+      rewrite (load_one_list (length pre) l _ pre [] (map (fun _ => []) ls)); [| reflexivity | reflexivity | | exact Hg].
       + cbn [scalars app].
         replace (pre ++ l :: map (fun _ => []) ls) with ((pre ++ [l]) ++ map (fun _ : list elem => @nil elem) ls)
           by (rewrite <- app_assoc; reflexivity).
@@ -121,7 +125,7 @@ Section StoreFacts.
   (* ---------- C17: save then load gives the same store ---------- *)
   Definition wf_store (s : store) : Prop :=
     Forall2 (fun i v => norm i v = Some v) (seq 0 (length (scalars s))) (scalars s) /\
-    Forall2 (fun j l => canonical j l) (seq 0 (length (lists s))) (lists s).
+    Forall2 (fun j l => canonical j l /\ Forall (good j) l) (seq 0 (length (lists s))) (lists s).
 
   Theorem save_load s defaults :
     wf_store s -> length (scalars defaults) = length (scalars s) ->
